@@ -438,30 +438,41 @@ Section WithHash.
 
   (** the if/elif chain at the end of _get_cache, as the translator extracts it *)
   Inductive cache_type := CT_CSE | CT_SINGLE | CT_ULTIMATE | CT_MISS.
-  Inductive gc_test := TestCSE | TestError | TestMiss | TestValid.
+  Inductive gc_test :=
+  | TestCSEHandles   (* cache_type == CacheResult.CSE and self._has_valid_handles(result) *)
+  | TestCSE | TestError | TestMiss | TestValid.
   Inductive gc_out := OutHit | OutMiss.
   Definition gc_chain := list (gc_test * gc_out).
-  Definition shipped_chain : gc_chain :=
-    [(TestCSE, OutHit); (TestError, OutMiss); (TestMiss, OutMiss); (TestValid, OutHit)].
+  (** the chain of the current source (since the C25 repair a same-execution hit is used only if
+      every Handle in it is still valid; other external values are not re-checked there) *)
+  Definition code_chain : gc_chain :=
+    [(TestCSEHandles, OutHit); (TestCSE, OutMiss); (TestError, OutMiss); (TestMiss, OutMiss); (TestValid, OutHit)].
   Inductive gc_res := GHit | GMiss | GRaise.
   Definition out_res (o : gc_out) : gc_res := match o with OutHit => GHit | OutMiss => GMiss end.
-  Fixpoint eval_chain (c : gc_chain) (ct : cache_type) (is_error : bool) (valid : vres) : gc_res :=
+  (** Scheduler._has_valid_handles: all(handle.is_valid() for Handle leaves); never raises *)
+  Definition handles_valid (n : nested) : bool :=
+    forallb (fun l => match l with LHandle b => b | _ => true end) (visit n).
+  Fixpoint eval_chain (c : gc_chain) (ct : cache_type) (is_error : bool) (handles_ok : bool) (valid : vres) : gc_res :=
     match c with
     | [] => GMiss                         (* the final else: "Cached result is no longer valid" *)
     | (t, o) :: r =>
         match t with
-        | TestCSE => match ct with CT_CSE => out_res o | _ => eval_chain r ct is_error valid end
-        | TestError => if is_error then out_res o else eval_chain r ct is_error valid
-        | TestMiss => match ct with CT_MISS => out_res o | _ => eval_chain r ct is_error valid end
+        | TestCSEHandles => match ct with
+                            | CT_CSE => if handles_ok then out_res o else eval_chain r ct is_error handles_ok valid
+                            | _ => eval_chain r ct is_error handles_ok valid
+                            end
+        | TestCSE => match ct with CT_CSE => out_res o | _ => eval_chain r ct is_error handles_ok valid end
+        | TestError => if is_error then out_res o else eval_chain r ct is_error handles_ok valid
+        | TestMiss => match ct with CT_MISS => out_res o | _ => eval_chain r ct is_error handles_ok valid end
         | TestValid => match valid with
                        | VTrue => out_res o
-                       | VFalse => eval_chain r ct is_error valid
+                       | VFalse => eval_chain r ct is_error handles_ok valid
                        | VRaise => GRaise
                        end
         end
     end.
   Definition get_cache (v : variant) (fs : fsys) (ct : cache_type) (is_error : bool) (result : nested) : gc_res :=
-    eval_chain shipped_chain ct is_error (is_valid_nested v fs result).
+    eval_chain code_chain ct is_error (handles_valid result) (is_valid_nested v fs result).
 
   (** ** Run-level history machine: one cached task whose result holds external values.
       The task writes its outputs and returns fresh value objects; their hashes are taken when
